@@ -27,7 +27,7 @@ theorem uss_svcs (cfg : Cfg) (l : Local) (c : Cat) (id : Id) :
 theorem uss_chks (cfg : Cfg) (l : Local) (c : Cat) (k : Id) :
     (updateSyncState cfg l c).chks.get? k =
       match l.chks.get? k with
-      | some e => some (usChk c k e)
+      | some e => some (usChk c l.armed k e)
       | none => if c.chks.get? k ≠ none ∧ specialChk k = false then some (.ghost false) else none := by
   simp only [updateSyncState, get?_append, get?_mapVals, ghostsFor]
   cases h : l.chks.get? k with
@@ -63,7 +63,7 @@ theorem usSvc_deleted (c : Cat) (id : Id) (e : Ent SvcDef) : (usSvc c id e).dele
     | ghost b => rfl
     | ent d t lo b del => cases del <;> rfl
 
-theorem usChk_live (c : Cat) (k : Id) (e : Ent ChkDef) : (usChk c k e).live? = e.live? := by
+theorem usChk_live (c : Cat) (a : Id → Bool) (k : Id) (e : Ent ChkDef) : (usChk c a k e).live? = e.live? := by
   unfold usChk
   cases c.chks.get? k with
   | none => simp
@@ -113,6 +113,7 @@ theorem uss_sound_svc (cfg : Cfg) (l : Local) (c : Cat) (id : Id) (d : SvcDef) (
           rw [← h1, this]
 
 theorem uss_sound_chk (cfg : Cfg) (l : Local) (c : Cat) (k : Id) (d : ChkDef) (tok : String) (loc : Bool)
+    (hna : l.armed k = false)
     (h : (updateSyncState cfg l c).chks.get? k = some (.ent d tok loc true false)) : c.chks.get? k = some d := by
   rw [uss_chks] at h
   cases hl : l.chks.get? k with
@@ -130,7 +131,7 @@ theorem uss_sound_chk (cfg : Cfg) (l : Local) (c : Cat) (k : Id) (d : ChkDef) (t
         cases del with
         | true => simp at h
         | false =>
-          simp only [Ent.ent.injEq] at h
+          simp only [Ent.ent.injEq, hna] at h
           obtain ⟨h1, _, _, h2, _⟩ := h
           have : d0 = rc := by simpa using h2
           rw [← h1, this]
@@ -140,7 +141,8 @@ def KeptSvc (l : Local) (id : Id) : Prop := specialSvc id = true ∧ l.svcs.get?
 def KeptChk (l : Local) (k : Id) : Prop := specialChk k = true ∧ l.chks.get? k = none
 
 theorem uss_GInv (cfg : Cfg) (l : Local) (c : Cat)
-    (hl : LocalWF l) (hc : CatWF c) (hn : NoEmptyKey l c) (hr : T → NoRebound l c) :
+    (hl : LocalWF l) (hc : CatWF c) (hn : NoEmptyKey l c) (hr : T → NoRebound l c)
+    (ha : ∀ k, l.armed k = true → Rc k) :
     GInv T Rs Rc (KeptSvc l) (KeptChk l) (updateSyncState cfg l c) c := by
   obtain ⟨n1, n2, n3, n4⟩ := hn
   refine ⟨?_, hc, ⟨?_, ?_, n3, n4⟩, ?_, ⟨?_, ?_⟩, ⟨?_, ?_⟩⟩
@@ -171,7 +173,10 @@ theorem uss_GInv (cfg : Cfg) (l : Local) (c : Cat)
           obtain ⟨rfl, rfl, rfl, rfl, _⟩ := h1
           exact hr ht k d0 t lo x rc hk h2 h3
   · intro id d tok loc h; exact Or.inr (uss_sound_svc cfg l c id d tok loc h)
-  · intro k d tok loc h; exact Or.inr ⟨d, uss_sound_chk cfg l c k d tok loc h, rfl⟩
+  · intro k d tok loc h
+    cases hk : l.armed k with
+    | true => exact Or.inl (ha k hk)
+    | false => exact Or.inr ⟨d, uss_sound_chk cfg l c k d tok loc hk h, rfl⟩
   · intro id h
     rw [uss_svcs] at h
     cases hk : l.svcs.get? id with
